@@ -8,6 +8,7 @@
 mod db;
 mod eval;
 mod gen;
+mod hist;
 mod model;
 mod props;
 mod qgen;
